@@ -434,9 +434,18 @@ def _grid_scales(tier, rng):
                 yield {"d": d, "s": s, "a": a, "b": b}
     # the minutes around a leap second (the instants inside the inserted second itself, which have no UTC reading, are avoided): readings, in the scale the date
     # is given in, shortly before and after 0 h of the day TAI-UTC changes
-    for L in (56109, 57204, 57754)[: 1 if tier == "quick" else 3] if tier != "quick" else (57754,):
-        for (dd, ss) in ((L - 1, 86250.0), (L - 1, 86350.0), (L - 1, 86380.0), (L - 1, 86399.5), (L, 1.5), (L, 16.0), (L, 35.5), (L, 40.0), (L, 70.0), (L, 140.0)):
+    before = {56109: 34.0, 57204: 35.0, 57754: 36.0}      # TAI-UTC in force before 0 h of that day
+    to_tai = {"TAI": 0.0, "TT": -32.184, "GPS": 19.0, "TDB": -32.184}
+    for L in ((56109, 57204, 57754) if tier != "quick" else (57754,)):
+        for (dd, ss) in ((L - 1, 86250.0), (L - 1, 86350.0), (L - 1, 86380.0), (L - 1, 86398.0), (L, 1.5), (L, 13.0), (L, 20.5), (L, 40.0), (L, 72.0), (L, 140.0)):
             for a in range(6):
+                # the TAI reading of the instant (UTC / UT1 readings: before 0 h, TAI-UTC is the old value; after 0 h the new one)
+                if SCALES[a] in to_tai:
+                    tai = (dd - L) * 86400.0 + ss + to_tai[SCALES[a]]
+                else:
+                    tai = (dd - L) * 86400.0 + ss + (before[L] if dd < L else before[L] + 1.0)
+                if before[L] - 1.5 <= tai <= before[L] + 2.5:
+                    continue      # in (or within a second and a half of) the inserted second: no UTC reading / UT1-UTC steps there
                 for b in range(6):
                     if a != b:
                         yield {"d": dd, "s": ss, "a": a, "b": b}
